@@ -6,9 +6,9 @@ CHECK_DEADLOCK FALSE
 CONSTANTS
   Mode = "wrap"
   MaxDepth = 4
-  W1 = "full"
+  W1 = "core"
   W2 = "core"
-  W3 = "core"
+  W3 = "full"
   SlRange = 2
   EmitAst = FALSE
   KnownDeviations = {"filter-on-non-array", "merge-no-override", "operator-before-pipe", "pipe-into-literal", "argument-context-leak", "projection-skips-null", "sort-singleton", "null-vs-reference-equality", "parenthesised-operand", "multiselect-leading-star", "by-key-error-ignored"}
